@@ -298,7 +298,9 @@ def programs(tier):
 
 def styles(tier):
     out = [{}]
-    for k, vals in (('ws', (1, 2, 3)), ('quote', (1,)), ('endarg', (1,)),
+    for k, vals in (('ws', (1, 2, 3, 4, 5, 6) if tier == 'quick' else
+                     (1, 2, 3, 4, 5, 6, 7, 8, 9)),
+                    ('quote', (1,)), ('endarg', (1,)),
                     ('ssiend', (1,)), ('exprkw', (1,)), ('eol', (1,))):
         for v in vals:
             out.append({k: v})
